@@ -217,8 +217,31 @@ func (ea *escAnalysis) compute(v ssa.Value) *escClass {
 		if _, isStr := x.X.Type().Underlying().(*types.Basic); isStr {
 			return ea.classOf(x.X)
 		}
+	case *ssa.Index:
+		if _, elems, ok := constTable(x); ok {
+			out := &escClass{path: true, query: true}
+			for _, s := range elems {
+				c := &escClass{path: rePathSafe.MatchString(s), query: reQuerySafe.MatchString(s)}
+				if !c.path && !c.query {
+					c.why = fmt.Sprintf("the constant %q contains characters that are neither URL-safe nor percent-escaped", s)
+				}
+				out = meet(out, c)
+			}
+			return out
+		}
 	case *ssa.UnOp:
 		if x.Op == token.MUL {
+			if _, elems, ok := constTable(x); ok {
+				out := &escClass{path: true, query: true}
+				for _, s := range elems {
+					c := &escClass{path: rePathSafe.MatchString(s), query: reQuerySafe.MatchString(s)}
+					if !c.path && !c.query {
+						c.why = fmt.Sprintf("the constant %q contains characters that are neither URL-safe nor percent-escaped", s)
+					}
+					out = meet(out, c)
+				}
+				return out
+			}
 			// an element of a list of pieces
 			if ia, ok := x.X.(*ssa.IndexAddr); ok {
 				return ea.listClass(ia.X)
@@ -438,14 +461,139 @@ func nameTemplateEnv(v ssa.Value, depth int, env map[*ssa.Parameter]ssa.Value) (
 				return nameTemplateEnv(e, depth+1, env)
 			}
 		}
+	case *ssa.Index, *ssa.UnOp:
+		// an element of a constant table the emission loop walks: the entry
+		// currently picked (the caller enumerates the entries)
+		if al, elems, ok := constTable(v); ok {
+			if k, picked := tablePick[al]; picked && k < len(elems) {
+				if d, err := url.QueryUnescape(elems[k]); err == nil {
+					return d, true
+				}
+			}
+		}
 	}
 	return "", false
+}
+
+// tablePick selects, per constant table, the entry that stands for "the
+// element of this iteration" while a template is computed.
+var tablePick = map[*ssa.Alloc]int{}
+
+// constTable: v is an element (at a non-constant index) of a local array of
+// strings every slot of which is stored once, with a constant, and which is
+// otherwise only read: `for _, k := range [...]string{"a", "b"}`.
+func constTable(v ssa.Value) (*ssa.Alloc, []string, bool) {
+	var al *ssa.Alloc
+	switch x := v.(type) {
+	case *ssa.Index:
+		if ld, ok := x.X.(*ssa.UnOp); ok && ld.Op == token.MUL {
+			al, _ = ld.X.(*ssa.Alloc)
+		}
+	case *ssa.UnOp:
+		if x.Op != token.MUL {
+			return nil, nil, false
+		}
+		if ia, ok := x.X.(*ssa.IndexAddr); ok {
+			if _, isConst := constInt(ia.Index); isConst {
+				return nil, nil, false
+			}
+			switch y := ia.X.(type) {
+			case *ssa.Alloc:
+				al = y
+			case *ssa.Slice:
+				if y.Low == nil && y.High == nil {
+					al, _ = y.X.(*ssa.Alloc)
+				}
+			}
+		}
+	}
+	if al == nil {
+		return nil, nil, false
+	}
+	at, ok := deref(al.Type()).Underlying().(*types.Array)
+	if !ok {
+		return nil, nil, false
+	}
+	if bt, ok := at.Elem().Underlying().(*types.Basic); !ok || bt.Info()&types.IsString == 0 {
+		return nil, nil, false
+	}
+	elems := make([]string, at.Len())
+	filled := make([]bool, at.Len())
+	for _, ref := range referrers(al) {
+		switch y := ref.(type) {
+		case *ssa.IndexAddr:
+			k, isConst := constInt(y.Index)
+			if !isConst {
+				// a read at a computed index: every referrer must be a load
+				for _, r2 := range referrers(y) {
+					if ld, ok := r2.(*ssa.UnOp); !ok || ld.Op != token.MUL {
+						return nil, nil, false
+					}
+				}
+				continue
+			}
+			for _, r2 := range referrers(y) {
+				switch z := r2.(type) {
+				case *ssa.Store:
+					sv, ok := constString(z.Val)
+					if !ok || z.Addr != ssa.Value(y) || k < 0 || k >= at.Len() || filled[k] {
+						return nil, nil, false
+					}
+					elems[k], filled[k] = sv, true
+				case *ssa.UnOp:
+				default:
+					return nil, nil, false
+				}
+			}
+		case *ssa.UnOp: // load of the whole array
+		case *ssa.Slice:
+			for _, r2 := range referrers(y) {
+				if _, ok := r2.(*ssa.IndexAddr); !ok {
+					return nil, nil, false
+				}
+			}
+		default:
+			return nil, nil, false
+		}
+	}
+	for _, f := range filled {
+		if !f {
+			return nil, nil, false
+		}
+	}
+	return al, elems, true
+}
+
+// tablesIn: the constant tables an expression reads an element of.
+func tablesIn(v ssa.Value, depth int, out map[*ssa.Alloc]int) {
+	if depth > 12 || v == nil {
+		return
+	}
+	if al, elems, ok := constTable(v); ok {
+		out[al] = len(elems)
+		return
+	}
+	switch x := v.(type) {
+	case *ssa.BinOp:
+		tablesIn(x.X, depth+1, out)
+		tablesIn(x.Y, depth+1, out)
+	case *ssa.Slice:
+		tablesIn(x.X, depth+1, out)
+	case *ssa.Phi:
+		for i, e := range x.Edges {
+			if !x.Block().Dominates(x.Block().Preds[i]) {
+				tablesIn(e, depth+1, out)
+			}
+		}
+	}
 }
 
 type emission struct {
 	call *ssa.Call // the append
 	elem ssa.Value
 	name string
+	tbl  *ssa.Alloc // the constant table the name is an entry of (or nil)
+	pick int
 }
 
 func checkC08Names(p *Prog, r *Report, f, ns *ssa.Function) []emission {
@@ -567,8 +715,23 @@ func checkC08Names(p *Prog, r *Report, f, ns *ssa.Function) []emission {
 			if ia, ok := ref.(*ssa.IndexAddr); ok {
 				for _, r2 := range referrers(ia) {
 					if st, ok := r2.(*ssa.Store); ok {
+						tbls := map[*ssa.Alloc]int{}
+						tablesIn(st.Val, 0, tbls)
+						if len(tbls) == 1 {
+							// a loop over a constant table of names: one emission per entry
+							for tal, n := range tbls {
+								for k := 0; k < n; k++ {
+									tablePick[tal] = k
+									if t, ok := nameTemplate(st.Val, 0); ok && strings.Contains(t, "=") {
+										ems = append(ems, emission{c, st.Val, t[:strings.Index(t, "=")], tal, k})
+									}
+									delete(tablePick, tal)
+								}
+							}
+							continue
+						}
 						if t, ok := nameTemplate(st.Val, 0); ok && strings.Contains(t, "=") {
-							ems = append(ems, emission{c, st.Val, t[:strings.Index(t, "=")]})
+							ems = append(ems, emission{c, st.Val, t[:strings.Index(t, "=")], nil, 0})
 						}
 					}
 				}
@@ -600,6 +763,9 @@ func checkC08Names(p *Prog, r *Report, f, ns *ssa.Function) []emission {
 			case *ssa.Lookup:
 				if k, ok := constString(x.Index); ok {
 					found = k
+				}
+				if tal, elems, ok := constTable(x.Index); ok && tal == e.tbl && e.pick < len(elems) {
+					found = elems[e.pick]
 				}
 				return
 			case *ssa.Alloc:
